@@ -1,8 +1,10 @@
 //go:build verif
 
 // C10: the content covered by the ServerKeyExchange signature (RFC 8422 5.4, RFC 5246 7.4.3):
-//   ClientHello.random(32) || ServerHello.random(32) || ServerECDHParams
-//   ServerECDHParams = curve_type(1) = named_curve(3) || NamedCurve(2, big-endian) || ECPoint: length(1) || point
+//
+//	ClientHello.random(32) || ServerHello.random(32) || ServerECDHParams
+//	ServerECDHParams = curve_type(1) = named_curve(3) || NamedCurve(2, big-endian) || ECPoint: length(1) || point
+//
 // Comment-only; read by /verif/vc.
 package handshakecrypto
 
